@@ -164,3 +164,35 @@ Qed.
 
 Corollary spans_eval t env r : wf_tree t -> spans t env r -> r = eval_tree t env.
 Proof. intros W H. eapply spans_deterministic; eauto. now apply eval_tree_spans. Qed.
+
+(* ---------------------------------------------------------------------------------------- *)
+(* The full statement of the property for a solver (a function from problems to trees): every
+   tree it returns is well formed and right for every valuation of the context.  Proving it for
+   PIP_Problem::solve would need a model of Feautrier's parametric dual simplex with cuts
+   (PIP_Solution_Node::solve); that is NOT attempted.  This definition is only the statement; no
+   theorem in this development asserts it, and the correspondence check refutes it for the real
+   library on concrete inputs (known findings of C07). *)
+Definition pip_full (solver : problem -> tree) : Prop :=
+  forall pb, wf_tree (solver pb) /\ tree_right pb (eval_tree (solver pb)).
+
+(* the hypotheses are satisfiable: the example tree of PIP_Problem_defs.hh
+     if 7*n >= 10 then  if 7*m >= 12 then {2 ; 2}
+                        else Parameter P = m div 2;  if 2*n + 3*m >= 8 then {-m - P + 4 ; m} else _|_
+     else _|_
+   (dimensions i, j, n, m; the library prints the tests after integral simplification) *)
+Definition doc_tree : tree :=
+  Dec [ {| ccoefs := [0; 0; 1; 0]; ccst := -2; ckd := GE |} ] []
+      (Dec [ {| ccoefs := [0; 0; 0; 1]; ccst := -2; ckd := GE |} ] []
+           (Sol [] [] [ {| lco := []; lk := 2 |}; {| lco := []; lk := 2 |} ])
+           (Sol [ {| ccoefs := [0; 0; 2; 3]; ccst := -8; ckd := GE |} ]
+                [ {| anum := {| lco := [0; 0; 0; 1]; lk := 0 |}; aden := 2 |} ]
+                [ {| lco := [0; 0; 0; -1; -1]; lk := 4 |}; {| lco := [0; 0; 0; 1]; lk := 0 |} ]))
+      Bot.
+
+Example doc_tree_wf : wf_tree doc_tree.
+Proof. cbn. repeat split; repeat constructor. Qed.
+
+Example doc_tree_eval :
+  eval_tree doc_tree [0; 0; 3; 1] = Some [3; 1] /\ eval_tree doc_tree [0; 0; 5; 7] = Some [2; 2] /\
+  eval_tree doc_tree [0; 0; 1; 9] = None /\ eval_tree doc_tree [0; 0; 2; 1] = None.
+Proof. vm_compute. repeat split. Qed.
